@@ -6,6 +6,12 @@ hooks = subprocess.run(["git", "-C", "/repo", "log", "--format=%H %s"], capture_
 hook_commits = [l.split()[0] for l in hooks if l.split(" ", 1)[1].startswith("verif:")]
 
 CHECKS = {
+ "C08": dict(engine="filesink", design="§5 C08", technique="TLC exhaustive check of FileSink.tla (step level: concurrent writers, Reopen, external rename, pause, Crash in every state) and FsSeq.tla + spec->code replay of every FsSeq transition on a real FileSink + concurrent-writer runs judged by real-time order + SIGKILL at every hook label and random instants",
+   text="Model checking of NoLossNoDupInOrder, AckedPrefix (at most the in-flight event beyond the acknowledged prefix, also across Crash), PrunedAreOldestOwn over all interleavings of the bounded step-level model; the API-level model's complete transition graph for 5-8 configurations is replayed in temporary directories with every event a unique self-delimiting token, so loss, duplication, reordering and tearing are visible; a child process is killed at the k-th hit of every file-sink hook and at random instants.",
+   note="Trusted: single write(2) <= 200 bytes on O_APPEND is all-or-nothing under SIGKILL (exercised, not proved). Time-triggered rotation judged only where the measured interval is certain."),
+ "C15": dict(engine="filesink", design="§5 C15", technique="TLC exhaustive check of FsSeq.tla (NeverWithoutLimits, RetentionHolds, ActiveHasPlainName, ForeignKept) + spec->code replay comparing the per-file distribution of events, BytesWritten and file modes after every step",
+   text="Model checking of the rotation/naming/retention rules of the API-level model with event sizes below, at and above MaxBytes; every transition is executed on a real FileSink and the parsed directory (which events in which rotated/active/foreign file), the exported counter and the file modes are compared with the model.",
+   note="MaxFiles = 0 means retention disabled. Time conditions only where certain (ambiguous runs are skipped and counted)."),
  "C12": dict(engine="locks", design="§5 C12", technique="TLC deadlock-freedom and liveness of Locks.tla (writer-preferring RWMutex, node mutex, re-entrant callbacks) + directed runs of every scenario on the real Broker under a watchdog with lock-mode sensing inside callbacks",
    text="Model checking of the lock protocol: with node callbacks run outside the Broker lock no reachable state is stuck and every call eventually returns, while holding the write lock across Close or the read lock across Reopen yields the three deadlocks. The same scenario set (every removing/reopening/sending operation x a node re-entering Send from Process, Close or Reopen x the library's gated filter with 0..3 pending groups x a writer parked on the lock, plus a forced gated-Process-vs-removal race) runs on the real Broker; a call that does not return, reproduced, with goroutines parked on Broker locks is a violation.",
    note="Trusted: goroutine dump; 4 s watchdog on calls whose nodes all return. The lock mode sensed inside callbacks is evidence that the model's hold table matches the code."),
@@ -38,6 +44,7 @@ CHECKS = {
    note="Trusted: harness node Reopen counters."),
 }
 ENGINES = [
+ {"name": "filesink", "path": "spec/filesink + harness/fsrep + lib/fam_filesink.py", "serves_properties": ["C08", "C15"], "kind_free_text": "TLA+ models of FileSink (API level and step level with crash), TLC exhaustive, Go replayer, crash child"},
  {"name": "locks", "path": "spec/locks + harness/locks + lib/fam_locks.py", "serves_properties": ["C12"], "kind_free_text": "TLA+ model of Broker.lock / node mutex with re-entrant callbacks, TLC deadlock + liveness, watchdog scenarios on the real Broker"},
  {"name": "gated", "path": "spec/gated + harness/gatedrep + lib/fam_gated.py", "serves_properties": ["C11", "C17"], "kind_free_text": "TLA+ model of gated.Filter, TLC exhaustive + simulation, Go replayer"},
  {"name": "dispatch", "path": "spec/dispatch + harness/dispatch + lib/fam_dispatch.py", "serves_properties": ["C01", "C02", "C03"], "kind_free_text": "TLA+ model of graph.process/doProcess, TLC exhaustive + liveness, trace validation of recorded Sends"},
